@@ -55,6 +55,12 @@ WRAPPERS6 = ["decorate_with_checker/wrapper[sync]", "decorate_with_checker/wrapp
 
 PROPS = {}
 PROPS_LATE = {
+    "C03": dict(units=INV_CONE + ["invariant.__call__", "invariant.__init__", "DBCMeta.__new__", "_collapse_invariants", "Invariant.__init__"],
+                replay="inv", hints=["member selection", "nested constructor", "check_on"],
+                bounded=[dict(unit="_checkers.py::add_invariant_checks", script="invfam.py",
+                              bound="32 class programs: 1-3 levels of inheritance x check_on orders {CALL, ALL, CALL+SETATTR, SETATTR+CALL, SETATTR} x member kinds "
+                                    "{public, _private, dunder, property, classmethod, staticmethod, async, __setattr__} x constructors calling super().__init__ "
+                                    "first/last x operation sequences of <= 12 steps; compared with a reference written from the statement")]),
     "C04": dict(units=META_CONE + ["find_checker", "_assert_preconditions", "_assert_preconditions_async", "_assert_postconditions",
                                    "_assert_postconditions_async"], replay="hist", hints=["two bases", "chain", "gap", "weaken", "constructor"]),
     "C17": dict(units=META_CONE + ["find_checker", "require.__call__", "ensure.__call__", "snapshot.__call__", "add_precondition_to_checker",
